@@ -94,7 +94,7 @@ Proof.
            ++ exists mp. split; assumption.
         -- intros d0 Hd0. destruct (Hcl d0 Hd0) as [Hs0 | Hq]; [left | right; exact Hq].
            apply seen_store; right; exact Hs0.
-  - constructor; try reflexivity.
+  - constructor; try reflexivity; try (intros Hev0; exact Hev0).
     + intros p r Hs. apply seen_store; right; exact Hs.
     + intros p mp Hp Hvp Hxp. unfold store; cbn. unfold upd.
       destruct (key_eqb_spec q p) as [<- | Hne]; [|exact Hp].
